@@ -284,7 +284,7 @@ class Op:
         new_qn_list = []
         for symbol, dof, qn in zip(self.split_symbol, self.dofs, self.qn_list):
             if symbol == "I":
-                assert qn is None or qn == 0
+                assert qn is None or np.all(np.asarray(qn) == 0)
                 continue
             new_symbol_list.append(symbol)
             new_dof_list.append(dof)
